@@ -119,9 +119,16 @@ func (it *NativeIterator) Merge(oldval []byte) (val []byte, err error) {
 	oldTS := h.Timestamp
 	newTS := header.Timestamp(entry.TimestampNano)
 	actualOldVal := appVal
+	// Compare what would actually be stored for the new entry (see addHeader):
+	// a deleted entry never carries an application value.
+	oldDeleted := h.Flags.IsDeleted()
+	newDeleted := entry.MaskedFlags().IsDeleted() || (len(entryVal) == 0 && it.FormatVersion < 2)
+	if newDeleted {
+		entryVal = nil
+	}
 	if newTS == 0 {
 		// Special handling for main to shadow copy that uses a default timestamp
-		if bytes.Equal(actualOldVal, entryVal) {
+		if newDeleted == oldDeleted && bytes.Equal(actualOldVal, entryVal) {
 			return oldval, nil // do not update timestamp
 		}
 		newTS = it.DefaultTimestampNano
@@ -130,10 +137,16 @@ func (it *NativeIterator) Merge(oldval []byte) (val []byte, err error) {
 		// Current LMDB value has a higher timestamp, so keep that one
 		return oldval, nil
 	}
-	if newTS == oldTS && bytes.Compare(actualOldVal, entryVal) <= 0 {
+	if newTS == oldTS {
 		// Same timestamp, lexicographic lower app value wins for deterministic values,
 		// so return the old value if the plain value was lower or equal.
-		return oldval, nil
+		// A deleted entry and an entry with an empty value only differ in the
+		// deleted flag: the deleted one wins, so that the outcome does not
+		// depend on the order in which they are merged.
+		cmp := bytes.Compare(actualOldVal, entryVal)
+		if cmp < 0 || (cmp == 0 && (oldDeleted || !newDeleted)) {
+			return oldval, nil
+		}
 	}
 	// Update LMDB value
 	return it.addHeader(entryVal, newTS, entry.MaskedFlags(), false)
